@@ -44,7 +44,7 @@ RULE = (
     "cases from one SplitMix64 stream, each a call sequence on one library object, run twice (held-object snapshots; "
     "twin with sentinel overwrites). venv: DummyVecEnv (quick+thorough) / SubprocVecEnv(fork) base over scripted "
     "environments, observation kinds box rank 1/2, uint8 image HWC/CHW, Discrete, MultiDiscrete, MultiBinary, Dict "
-    "(with a Discrete entry), Dict of boxes, Tuple; n_envs 1-3; a type-correct stack of 0-4 wrappers from "
+    "(with a Discrete entry), Dict of boxes, Tuple; sub-environments put nested mutable containers into every info (a list, a dict of lists, a set, a custom object, all mutated in place at every step; optionally also one reused observation buffer and info dict); n_envs 1-3; a type-correct stack of 0-4 wrappers from "
     "{VecFrameStack, VecTransposeImage(skip or not), VecExtractDictObs, VecNormalize(norm_obs/norm_reward/training, "
     "norm_obs_keys), VecMonitor, VecCheckNan}; 3-9 calls from reset / step / get_original_obs / get_original_reward / "
     "normalize_obs / unnormalize_obs with episode scripts weighted to length-1 episodes and resets right after a step. "
@@ -93,6 +93,18 @@ def is_tensor(o):
 IMMUT = (str, bytes, int, float, bool, complex, type(None), np.generic)
 
 
+class Tracker19:
+    """a small custom (picklable, deep-copyable) object a sub-environment puts into its infos and keeps mutating"""
+
+    def __init__(self):
+        self.count = 0
+        self.items = []
+
+    def push(self, x):
+        self.count += 1
+        self.items.append(x)
+
+
 def as_np(o):
     """ndarray view of an array / cpu tensor (shares memory)"""
     if isinstance(o, np.ndarray):
@@ -120,6 +132,10 @@ def snap(o, _depth=0):
         return ("s", str(o.dtype), repr(o.item()))
     if isinstance(o, IMMUT):
         return ("p", repr(o))
+    if isinstance(o, (set, frozenset)):
+        return ("set", sorted(repr(x) for x in o))
+    if isinstance(o, Tracker19):
+        return ("d", sorted((repr(k), snap(v, _depth + 1)) for k, v in vars(o).items()))
     return ("o", type(o).__name__)
 
 
@@ -144,6 +160,8 @@ def diff_path(a, b, path=""):
             d = diff_path(x, y, f"{path}[{i}]")
             if d:
                 return d
+    if a[0] == "set":
+        return f"{path}<set {sorted(set(a[1]) ^ set(b[1]))[:3]}>"
     if a[0] == "ndo":
         for i, (x, y) in enumerate(zip(a[2], b[2])):
             d = diff_path(x, y, f"{path}[{i}]")
@@ -176,6 +194,12 @@ def leaves(o, _depth=0, arrays=None, conts=None):
             leaves(v, _depth + 1, arrays, conts)
     elif isinstance(o, tuple):
         for v in o:
+            leaves(v, _depth + 1, arrays, conts)
+    elif isinstance(o, set):
+        conts.append(o)
+    elif isinstance(o, Tracker19):
+        conts.append(o)
+        for v in vars(o).values():
             leaves(v, _depth + 1, arrays, conts)
     return arrays, conts
 
@@ -223,6 +247,16 @@ def overwrite(o, _depth=0):
     elif isinstance(o, tuple):
         for v in o:
             overwrite(v, _depth + 1)
+    elif isinstance(o, set):
+        o.clear()
+        o.add("__c19_junk__")
+    elif isinstance(o, Tracker19):
+        for k, v in list(vars(o).items()):
+            if isinstance(v, IMMUT):
+                setattr(o, k, SENT)
+            else:
+                overwrite(v, _depth + 1)
+        o.junk = SENT
 
 
 _SKIP_TYPES = None
@@ -268,12 +302,14 @@ def reach(roots):
             conts.add(i)
             stack.extend(o.values())
         elif isinstance(o, (list, tuple, set, frozenset)):
-            if isinstance(o, list):
+            if isinstance(o, (list, set)):
                 conts.add(i)
             stack.extend(o)
         else:
             d = getattr(o, "__dict__", None)
             if isinstance(d, dict):
+                if isinstance(o, Tracker19):
+                    conts.add(i)
                 stack.extend(d.values())
             sl = getattr(type(o), "__slots__", None)
             if sl:
@@ -353,6 +389,25 @@ class Env19(ScriptedEnv):
         self.reuse = reuse
         self._obs_buf = None
         self._info_buf = {}
+        # nested mutable containers the environment owns, reports in every info and keeps mutating in place
+        self._hist = []
+        self._stats = {"steps": 0, "actions": [], "per_episode": {"lengths": []}}
+        self._seen = set()
+        self._tracker = Tracker19()
+
+    def _nested(self, info, what):
+        self._hist.append(what)
+        self._stats["steps"] = self.n_steps
+        self._stats["actions"].append(what * 2)
+        if what < 0:
+            self._stats["per_episode"]["lengths"].append(self.n_steps)
+        self._seen.add(what % 5)
+        self._tracker.push(what)
+        info["hist"] = self._hist
+        info["stats"] = self._stats
+        info["seen"] = self._seen
+        info["tracker"] = self._tracker
+        return info
 
     def _out_obs(self, o):
         if self.kind19 == "dictbox":
@@ -383,13 +438,13 @@ class Env19(ScriptedEnv):
 
     def reset(self, *, seed=None, options=None):
         o, info = super().reset(seed=seed, options=options)
-        return self._out_obs(o), info
+        return self._out_obs(o), self._nested(info, -1 - self.episode)
 
     def step(self, action):
         o, r, te, tr, info = super().step(action)
         info["payload"] = np.array([self.n_steps, self.env_id], dtype=np.int64)
         info["nested"] = {"k": float(self.n_steps)}
-        return self._out_obs(o), r, te, tr, self._out_info(info)
+        return self._out_obs(o), r, te, tr, self._out_info(self._nested(info, self.n_steps))
 
 
 class Env19Fn:
